@@ -152,9 +152,31 @@ Proof.
   - exists (two53 + 1). vm_compute. discriminate.
 Qed.
 
+(* ---- 3c. "a signer with the same secret": the secret is the byte string the signer was constructed
+   with.  Full statement: forall t, working_key t = t_key t (what the caller does to its buffer
+   afterwards does not matter).  It holds iff NewJWTSigner copies the secret; if it keeps the caller's
+   slice, a caller that wipes its buffer turns the signer's secret into zeros, under which anybody
+   can sign (finding C14-ALIAS); the partial statement is for callers that leave the buffer alone. *)
+Theorem signer_secret_fixed_iff_copied :
+  (forall t, working_key t = t_key t) <-> jwt_signer_copies_secret = true.
+Proof. exact (working_key_iff jwt_signer_copies_secret). Qed.
+
+Theorem signer_secret_status :
+  if jwt_signer_copies_secret then forall t, working_key t = t_key t
+  else exists t, working_key t <> t_key t.
+Proof.
+  unfold working_key. destruct jwt_signer_copies_secret.
+  - intros t. reflexivity.
+  - exists (mkTrace [1]%N [0]%N 0 [] [] VNoSplit ORaw OPanic OPanic None). discriminate.
+Qed.
+
+Theorem signer_secret_partial : forall t, t_key_buf t = t_key t -> working_key t = t_key t.
+Proof. intros t H. unfold working_key, working_key_g. destruct jwt_signer_copies_secret; [reflexivity|exact H]. Qed.
+
 (* ---- 4. the trace oracle follows from the model wherever code and model agree ---- *)
 Theorem oracle_follows_from_model : forall t,
   origin_consistent t -> t_aud t <> []%N ->
+  working_key t = t_key t ->
   validate_tok (t_key t) (t_aud t) (t_now t) (t_view t) <> Panic ->
   agrees (TVal t) = true -> satisfies (TVal t) = true.
 Proof. exact (agrees_satisfies issue_writes_what_validate_reads). Qed.
@@ -207,7 +229,7 @@ Proof. vm_compute. repeat split. discriminate. Qed.
 (* the oracle on such a pair: acceptance under the other secret is a violation, and so is an equal
    keyed hash; the model disagrees with both *)
 Example key_oracle_nonvacuous :
-  let bad := mkTrace ex_key_last ex_t0 ex_aud ex_app (ex_view ex_key) (OIssued ex_key true ex_app ex_aud ex_t0 ex_d 77 [])
+  let bad := mkTrace ex_key_last ex_key_last ex_t0 ex_aud ex_app (ex_view ex_key) (OIssued ex_key true ex_app ex_aud ex_t0 ex_d 77 [])
                      (OOk (mkGp ex_app ex_d (Some ex_t0)) 77) (OOk (mkGp ex_app ex_d (Some ex_t0)) 77) None in
   satisfies (TVal bad) = false /\ agrees (TVal bad) = false
   /\ satisfies (TKeys (mkKeys ex_key ex_key_last true true (Some true))) = false
@@ -230,6 +252,18 @@ Example issued_integers_nonvacuous :
   /\ issue_number true 9007199254740993 = 9007199254740993
   /\ issued_int_ok false [([87]%N, JNum None 9007199254740992)] ([87]%N, 9007199254740993) = true
   /\ issued_int_ok true [([87]%N, JNum (Some 9007199254740992) 9007199254740992)] ([87]%N, 9007199254740993) = false.
+Proof. vm_compute. repeat split. Qed.
+
+(* a 64-byte secret, its buffer wiped by the caller, a token signed with 64 zero bytes: accepted by an
+   aliasing signer, refused by a copying one; the oracle counts the acceptance as a violation *)
+Example alias_nonvacuous :
+  let zeros := repeat 0%N 64 in
+  let v := issued_view zeros ex_aud ex_app ex_d ex_t0 [50;48;50;54]%N ex_pl (Some 77%N) in
+  let t o := mkTrace ex_prefix zeros ex_t0 ex_aud ex_app v (OSigned (Some zeros) (Some ex_aud) (Some ex_app) None) o o None in
+  validate_tok (working_key_g false (t OPanic)) ex_aud ex_t0 v = Ok (mkGp ex_app ex_d (Some ex_t0)) 77
+  /\ validate_tok (working_key_g true (t OPanic)) ex_aud ex_t0 v = Err ESignature
+  /\ satisfies (TVal (t (OOk (mkGp ex_app ex_d (Some ex_t0)) 77))) = false
+  /\ satisfies (TVal (t (OErr ESignature))) = true.
 Proof. vm_compute. repeat split. Qed.
 
 (* forged views: typed claims never panic whatever else is wrong; the bare one is the F13 witness *)
@@ -261,7 +295,7 @@ Proof. vm_compute. repeat split. Qed.
 
 (* a truthful trace on which the model's outputs are the observed ones *)
 Example oracle_nonvacuous :
-  let t := mkTrace ex_key ex_t0 ex_aud ex_app (ex_view ex_key) (OIssued ex_key true ex_app ex_aud ex_t0 ex_d 77 [])
+  let t := mkTrace ex_key ex_key ex_t0 ex_aud ex_app (ex_view ex_key) (OIssued ex_key true ex_app ex_aud ex_t0 ex_d 77 [])
                    (OOk (mkGp ex_app ex_d (Some ex_t0)) 77) (OOk (mkGp ex_app ex_d (Some ex_t0)) 77) (Some 0%N) in
   agrees (TVal t) = true /\ satisfies (TVal t) = true /\ validate_tok (t_key t) (t_aud t) (t_now t) (t_view t) <> Panic.
 Proof. vm_compute. repeat split. discriminate. Qed.
@@ -283,6 +317,9 @@ Print Assumptions issued_integers_exact_iff_json_number.
 Print Assumptions issued_integers_refuted.
 Print Assumptions issued_integers_partial.
 Print Assumptions issued_integers_status.
+Print Assumptions signer_secret_fixed_iff_copied.
+Print Assumptions signer_secret_status.
+Print Assumptions signer_secret_partial.
 Print Assumptions expiry_is_lifetime_end_rounded_down.
 Print Assumptions oracle_follows_from_model.
 Print Assumptions key_oracle_follows_from_model.
